@@ -29,7 +29,7 @@ fn rand_stream(rng: &mut Rng, pool: &[u64], maxn: usize) -> Vec<u64> {
 /// generic unweighted sketchers through the USk trait
 fn usk_case(kind: UKind, m: usize, seed: u64) -> Out {
     let mut rng = rng_from(seed);
-    let pool = fresh_ids(&mut rng, 50, 0);
+    let pool = if kind.is_nohash() { ids_with_specials(&mut rng, 50) } else { fresh_ids(&mut rng, 50, 0) };
     let mut used = make_usk(kind, m);
     let mut ops = Vec::new();
     let mut nops = 0;
@@ -280,8 +280,13 @@ pub fn run(rep: &mut Report) {
             (
                 i,
                 catch(std::panic::AssertUnwindSafe(|| {
-                    let fam = i % 24;
-                    if fam < 15 {
+                    let fam = i % 27;
+                    if fam >= 24 {
+                        let kind = kinds[15 + (fam - 24) as usize];
+                        let mut rng = rng_from(mix(&[s, 1]));
+                        let m = rng.random_range(1..200);
+                        usk_case(kind, m, s)
+                    } else if fam < 15 {
                         let kind = kinds[fam as usize];
                         let mut rng = rng_from(mix(&[s, 1]));
                         let m = match rng.random_range(0..5) {
@@ -315,7 +320,7 @@ pub fn run(rep: &mut Report) {
                 if o.nops >= 2 {
                     rep.distinct.insert(mix(&[i, 13]));
                 }
-                if i % 24 == 0 && i < 72 || i == 15 || i == 23 {
+                if i % 27 == 0 && i < 81 || i == 15 || i == 23 {
                     rep.sample(o.case.clone());
                 }
                 if let Some((k, w)) = o.fail {
